@@ -93,9 +93,30 @@ Fixpoint cfgs_eqb (ks ks' : list cfg) : bool :=
   | _, _ => false
   end.
 
-(* the quantifier of C13: a structurally complete configuration file (it parsed, it has a source) *)
+Fixpoint with_handlers (l : list cfg) : list cfg :=
+  match l with
+  | [] => []
+  | n :: l' => n :: match handler_of n with Some h => [h] | None => [] end ++ with_handlers l'
+  end.
+
+(* the quantifier of C13: a structurally complete configuration file (it parsed, it has a source),
+   non-negative sizes.  One more shape is left outside: an error handler written with an explicit
+   EMPTY `children: []` sequence.  The code rejects it (n.Children != nil, config.go:193) and the
+   model says so, but whether such a handler "has children" is not settled by the property text, so
+   no clause is evaluated on it (model and code are still compared). *)
+Definition sizes_ok (c : config) : bool :=
+  (0 <=? c_timeout c)
+  && forallb (fun n => (0 <=? a_workers (attrs_of n)) && (0 <=? a_bufsz (attrs_of n)))
+             (with_handlers (all_nodes (c_nodes c))).
+Definition empty_kids_section (h : cfg) : bool := a_kidskey (attrs_of h) && nilb (kids_of h).
+Definition no_empty_handler_kids (c : config) : bool :=
+  forallb (fun n => match handler_of n with Some h => negb (empty_kids_section h) | None => true end)
+          (all_nodes (c_nodes c)).
 Definition in_domain (i : input) : bool :=
-  match i_pre i with PreOk => isSome (c_src (i_cfg i)) | _ => false end.
+  match i_pre i with
+  | PreOk => isSome (c_src (i_cfg i)) && sizes_ok (i_cfg i) && no_empty_handler_kids (i_cfg i)
+  | _ => false
+  end.
 
 (* failing clauses, with detail values:
    1 accepted => ids unique            detail [1]: every other clause holds and no duplicate lies on a
@@ -157,7 +178,8 @@ Fixpoint dec_cfg (t : tree) : option cfg :=
             | _ => None
             end with
       | Some id, Some kk, Some ks, Some h =>
-          Some (Cfg {| a_name := nm; a_id := id; a_workers := w; a_bufsz := b; a_kidskey := kk |} ks h)
+          Some (Cfg {| a_name := nm; a_id := id; a_workers := w; a_bufsz := b;
+                       a_kidskey := kk || negb (nilb ks) |} ks h)
       | _, _, _, _ => None
       end
   | _ => None
@@ -274,12 +296,6 @@ Fixpoint dedup (l : list Z) : list Z :=
   | x :: l' => if existsb (Z.eqb x) l' then dedup l' else x :: dedup l'
   end.
 
-Fixpoint with_handlers (l : list cfg) : list cfg :=
-  match l with
-  | [] => []
-  | n :: l' => n :: match handler_of n with Some h => [h] | None => [] end ++ with_handlers l'
-  end.
-
 (* 1 file did not parse / null node entry, 2 no source section,
    10 model accepts, 11 model rejects, 12 model panics, 13 shape of finding F1 (accepted with a
    duplicate id off the first-child chains), 14 duplicate on a first-child chain, 15 unregistered type,
@@ -288,7 +304,8 @@ Fixpoint with_handlers (l : list cfg) : list cfg :=
    21 ancestor/descendant off chain, 22 first and second sibling, 23 second-or-later siblings,
    24 first and a later sibling, 25 cousins, 26 different roots both on chains, 27 different roots off chain,
    30 some error handler, 31 some id defaulted, 32 some workers/buffersize defaulted, 33 timeout defaulted,
-   34 negative size or timeout, 35 no nodes, 36 more than one root *)
+   34 negative size or timeout (outside the domain), 35 no nodes, 36 more than one root,
+   37 error handler with an explicit empty children sequence (outside the domain) *)
 Definition tags (i : input) : list Z :=
   let rg := i_regs i in
   let c := i_cfg i in
@@ -310,8 +327,8 @@ Definition tags (i : input) : list Z :=
       ++ (if existsb (fun n => negb (isSome (a_id (attrs_of n)))) nh then [31] else [])
       ++ (if existsb (fun n => (a_workers (attrs_of n) =? 0) || (a_bufsz (attrs_of n) =? 0)) nh then [32] else [])
       ++ (if c_timeout c <=? 0 then [33] else [])
-      ++ (if (c_timeout c <? 0) || existsb (fun n => (a_workers (attrs_of n) <? 0) || (a_bufsz (attrs_of n) <? 0)) nh
-          then [34] else [])
+      ++ (if sizes_ok c then [] else [34])
+      ++ (if no_empty_handler_kids c then [] else [37])
       ++ (match c_nodes c with [] => [35] | [_] => [] | _ => [36] end)
   | _ => [1]
   end.
